@@ -16,6 +16,8 @@ import traceback
 VERIF = os.path.dirname(os.path.dirname(os.path.abspath(__file__)))
 REPO = os.environ.get("MSCRIPT_REPO", "/repo")
 WORK = os.environ.get("VERIF_WORK") or os.path.join(VERIF, ".work")   # override only for scratch mutation runs
+# scratch mutation runs (VERIF_WORK set) keep their evidence and witnesses out of /verif
+OUT = WORK if os.environ.get("VERIF_WORK") else VERIF
 TARGET = os.path.join(WORK, "target")
 BIN = os.path.join(TARGET, "debug", "mscript")
 RUSTFLAGS = "--cfg mscript_verif --check-cfg cfg(mscript_verif)"
@@ -350,7 +352,7 @@ def load_findings():
 
 
 def write_witness(prop, v):
-    d = os.path.join(VERIF, "replay", prop, h([v.signature, v.witness]))
+    d = os.path.join(OUT, "replay", prop, h([v.signature, v.witness]))
     os.makedirs(d, exist_ok=True)
     w = dict(v.witness) if isinstance(v.witness, dict) else {"witness": v.witness}
     files = w.pop("files", None)
@@ -402,8 +404,8 @@ def finish(prop, tier, seed, outcome, t0):
     ev = {"property_id": prop, "tier": tier, "seed": int(seed), "level": outcome.level, "coverage": cov,
           "assumptions": outcome.assumptions, "wall_s": round(time.time() - t0, 2),
           "violations": len(by_sig)}
-    os.makedirs(os.path.join(VERIF, "evidence"), exist_ok=True)
-    with open(os.path.join(VERIF, "evidence", prop + ".json"), "w") as f:
+    os.makedirs(os.path.join(OUT, "evidence"), exist_ok=True)
+    with open(os.path.join(OUT, "evidence", prop + ".json"), "w") as f:
         json.dump(ev, f, indent=1, ensure_ascii=False, default=str)
         f.write("\n")
     for l in lines:
